@@ -155,6 +155,11 @@ func (ev *c10Eval) assignTo(l ast.Expr, v c10Val, env c10Env, depth int) (c10Env
 		if vr, ok := o.(*types.Var); ok && vr.Parent() == ev.pk.Types.Scope() {
 			return env, "assignment to a package-level variable"
 		}
+		if n := len(ev.litStack); n > 0 && ev.info.Defs[x] == nil {
+			if lit := ev.litStack[n-1]; o.Pos() < lit.Pos() || o.Pos() > lit.End() {
+				return env, "a function literal assigns to a captured variable"
+			}
+		}
 		return env.with(o, v), ""
 	case *ast.IndexExpr:
 		id, ok := ast.Unparen(x.X).(*ast.Ident)
@@ -164,11 +169,29 @@ func (ev *c10Eval) assignTo(l ast.Expr, v c10Val, env c10Env, depth int) (c10Env
 		o := ev.info.Uses[id]
 		base, tracked := env[o]
 		idx := ev.expr(x.Index, env, depth)
-		if !tracked || base.K != c10VSlice {
+		if !tracked || (base.K != c10VSlice && base.K != c10VMap) {
 			if tracked {
 				return env, "store into an untracked indexed value"
 			}
 			return env, "" // effect on a value nothing is known about
+		}
+		if tracked && base.K == c10VMap {
+			if (idx.K != c10VStr && idx.K != c10VInt) || (idx.K == c10VInt && !c10IsConst(idx.V)) || ev.addrTaken[o] {
+				return env, "store into a map at a non-constant key"
+			}
+			nm := c10Val{K: c10VMap, Dyn: base.Dyn}
+			done := false
+			for k, key := range base.Keys {
+				val := base.Args[k]
+				if ev.eqVals(key, idx) == 1 {
+					val, done = v, true
+				}
+				nm.Keys, nm.Args = append(nm.Keys, key), append(nm.Args, val)
+			}
+			if !done {
+				nm.Keys, nm.Args = append(nm.Keys, idx), append(nm.Args, v)
+			}
+			return env.with(o, nm), ""
 		}
 		i, isConst := idx.V.signedConst()
 		if idx.K != c10VInt || !isConst {
@@ -179,10 +202,30 @@ func (ev *c10Eval) assignTo(l ast.Expr, v c10Val, env c10Env, depth int) (c10Env
 			return env, ""
 		}
 		nb := c10SliceVal(base.Args)
+		nb.Why = base.Why // the identity of a list under test survives element stores
 		nb.Args[i] = v
 		return env.with(o, nb), ""
 	case *ast.SelectorExpr:
 		base := ev.expr(x.X, env, depth)
+		if id, ok := ast.Unparen(x.X).(*ast.Ident); ok && base.K == c10VStruct {
+			// a field of a struct-typed local (value semantics: no alias can observe the store)
+			o := ev.info.Uses[id]
+			f := fieldOf(ev.info, x)
+			_, isStruct := ev.info.TypeOf(id).Underlying().(*types.Struct)
+			if _, tracked := env[o]; tracked && isStruct && f != nil && !ev.addrTaken[o] {
+				if n := len(ev.litStack); n > 0 {
+					if lit := ev.litStack[n-1]; o.Pos() < lit.Pos() || o.Pos() > lit.End() {
+						return env, "a function literal assigns to a captured variable"
+					}
+				}
+				ns := c10Val{K: c10VStruct, Fields: map[*types.Var]c10Val{}}
+				for k, fv := range base.Fields {
+					ns.Fields[k] = fv
+				}
+				ns.Fields[f] = v
+				return env.with(o, ns), ""
+			}
+		}
 		if base.K == c10VStruct || base.K == c10VDyn {
 			return env, "store into a field of a tracked struct"
 		}
@@ -248,6 +291,10 @@ func (ev *c10Eval) execStmt(s ast.Stmt, st c10State, depth int, named []types.Ob
 		// a call evaluated for its effects: slices passed along could be modified by it
 		for _, a := range call.Args {
 			if id, ok := ast.Unparen(a).(*ast.Ident); ok {
+				fn := callee(ev.info, call)
+				if fn != nil && fn.Pkg() != nil && fn.Pkg().Path() == "sort" {
+					continue // package sort has a transfer function (c10_interp_sort.go)
+				}
 				if v, tracked := st.env[ev.info.Uses[id]]; tracked && v.K == c10VSlice && builtinName(ev.info, call) == "" {
 					return unsupported("a tracked slice is passed to a call statement")
 				}
